@@ -359,7 +359,7 @@ func runC20(c *Ctx) {
 		}
 	}
 	// ---- PatternMatchVariance ----
-	limits := [][2]int64{{1, 4}, {1, 2}, {7, 10}, {39, 50}, {1, 1}, {12, 25}}
+	limits := [][2]int64{{1, 4}, {1, 2}, {7, 10}, {39, 50}, {1, 1}, {12, 25}, {5, 2}, {3, 1}, {100, 1}} // "forall variance limits": also limits above one module
 	// Half of the calls hand the pattern and the observed runs over in SHARED buffers (one backing array for every
 	// pattern length / content): callers such as the readers keep counters in a reused scratch slice and slice
 	// patterns out of tables, so the score must depend on the VALUES it is given, not on the identity of the slices
